@@ -162,9 +162,21 @@ class Categorize(Factory, Container):
     def zero(self):
         return self._keepContent(Categorize(self.quantity, self.value))
 
+    def _checkContent(self, other):
+        # the bins must be mergeable even where the filled categories of the two operands do not overlap
+        if self.contentType != other.contentType:
+            raise ContainerException(
+                f"cannot add Categorizes because their contents differ ({self.contentType} vs {other.contentType})"
+            )
+        mine = self.value if self.value is not None else next(iter(self.bins.values()), None)
+        theirs = other.value if other.value is not None else next(iter(other.bins.values()), None)
+        if mine is not None and theirs is not None:
+            mine + theirs  # raises if the sub-aggregators differ in structure
+
     @inheritdoc(Container)
     def __add__(self, other):
         if isinstance(other, Categorize):
+            self._checkContent(other)
             out = Categorize(self.quantity, self.value)
             out.entries = self.entries + other.entries
             out.bins = {}
@@ -182,6 +194,7 @@ class Categorize(Factory, Container):
     @inheritdoc(Container)
     def __iadd__(self, other):
         if isinstance(other, Categorize):
+            self._checkContent(other)
             self.entries += other.entries
             for k in self.keySet.union(other.keySet):
                 if k in self.bins and k in other.bins:
